@@ -188,6 +188,8 @@ def check_factory(cfg):
         last_clock = None
         sleep_before = None
         decided = set()
+        polls_since_pause = {}
+        resumed_after_polls = {}
         for e in log:
             k = e[0]
             if k in ("sim_clock", "sim_schedule", "sleep_before", "sleep_after", "sim_pause", "sim_stop"):
@@ -206,10 +208,15 @@ def check_factory(cfg):
                 p = paused_at.pop(t, None) if cfg["ckpt"] else None
                 paused_at.pop(t, None)
                 cur[t] = dict(T_s=e[2], config=e[3], delivered=0, p=p, exp=None)
+                resumed_after_polls[t] = polls_since_pause.pop(t, None)
                 decided.discard(t)
             elif k == "sim_pause":
+                polls_since_pause[e[1]] = 0
                 if e[2] is not None:
                     paused_at[e[1]] = int(e[2])
+            elif k == "poll":
+                for t_ in polls_since_pause:
+                    polls_since_pause[t_] += 1
             elif k == "on_trial_result":
                 t, res, dec, tcfg = e[1], e[2], e[3], e[4]
                 run = cur.get(t)
@@ -222,7 +229,8 @@ def check_factory(cfg):
                 sc_start.update({k2: v2 for k2, v2 in SIMCONF[cfg["simconf"]].items() if k2 in sc_start})
                 stt = res.get("st_tuner_time")
                 if stt is not None and stt < run["T_s"] + sc_start["delay_start"] - 1e-9:
-                    v.append(("sim:stale-result-of-previous-run",
+                    variant = "resumed-in-the-iteration-it-was-paused" if resumed_after_polls.get(t) == 0 else "after-intervening-polls"
+                    v.append((f"sim:stale-result-of-previous-run:{variant}",
                               f"trial {t}: result at level {res.get('epoch')} stamped {stt} was delivered to the run started at "
                               f"{run['T_s']} (+delay_start {sc_start['delay_start']}): it was reported by the previous run of the trial, "
                               f"after the decision to pause it"))
@@ -334,6 +342,15 @@ def configs(tier, seed):
                                                 bseed=None if i % 4 else 0, stop={"max_num_trials_started": 4},
                                                 k=1 if tier == "quick" else 2, loop_cap=loop_cap,
                                                 max_exec=60 if tier == "quick" else 600))
+    # always present: pause-resume without max_resource_attr where the next report falls inside the stop window
+    # (report spacing below delay_stop, or a poll period that lets the report land between decision and stop signal)
+    for kind in ("hb-promotion", "shb"):
+        for timecol, sleep in (("tiny", 0.004), ("monotone", 0.1)):
+            for W in (1, 2):
+                for simconf in ("default", "slowstop"):
+                    out.append(dict(kind=kind, ckpt=(W == 1), mra=False, timecol=timecol, simconf=simconf, sleep=sleep, W=W,
+                                    n_a=2, n_seeds=1, R=4, seed=seed, bseed=0, stop={"max_num_trials_started": 4},
+                                    k=1 if tier == "quick" else 2, loop_cap=3000, max_exec=60 if tier == "quick" else 600))
     return out
 
 
